@@ -6,8 +6,11 @@
                          used as an operand of + - * / it is read through [opt0] (those uses are unreachable for None);
      * exceptions     -> [res] ([Err e]); [bind] sequences in Python evaluation order;
      * set[str]       -> a list of its elements (duplicates allowed), only observed through len / sorted / union;
-     * dict built by a comprehension -> association list, the last entry of a key wins;
-     * LabelMapping({k: v for v, k in enumerate(L)}) -> the key list [L] itself, index = position. *)
+     * dict built by a comprehension, or dict(zip(ks, vs)) ([combine ks vs]) -> association list, the last entry of a key wins;
+     * LabelMapping({k: v for v, k in enumerate(L)}) = LabelMapping(dict(zip(L, range(len(L))))) -> the key list [L] itself,
+       index = position;
+     * s.update(it) on a local set -> [set_union s (set_of_list it)];  acc = [] / for x in L: ... acc.append(E) ... -> [flat_map];
+     * next(filter(f, L), None) = next((x for x in L if f(x)), None) -> [find f L]. *)
 From Coq Require Import String Ascii.
 From Coq Require Import List Bool NArith Arith.
 From CC Require Import Theory.Field Model.Network Model.Transformers.
@@ -28,11 +31,11 @@ Definition type_tag (s : label) : N :=
 (* ---------- sets of labels ---------- *)
 Definition pyset := list label.
 Definition set_of_list (l : list label) : pyset := l.            (* set(l), {x for x in l} *)
-Definition set_union (a b : pyset) : pyset := a ++ b.            (* a.union(b) *)
+Definition set_union (a b : pyset) : pyset := a ++ b.            (* a.union(b); a.update(b) rebinds a to it *)
 Definition set_len (s : pyset) : nat := length (ldedup s).       (* len(s) *)
 Definition set_sorted (s : pyset) : list label := lsort (ldedup s).   (* sorted(s), sorted(list(s)) *)
 
-(* ---------- dict comprehension {k: v for ...} and d[k] ---------- *)
+(* ---------- dict comprehension {k: v for ...} / dict(zip(ks, vs)) and d[k] ---------- *)
 Fixpoint dict_get {V : Type} (d : list (label * V)) (k : label) : option V :=
   match d with
   | [] => None
@@ -43,7 +46,7 @@ Definition dict_item {V : Type} (d : list (label * V)) (k : label) : res V :=
 
 (* ---------- LabelMapping ---------- *)
 Definition mapping := list label.
-Definition enum_mapping (l : list label) : mapping := l.   (* LabelMapping({k: v for v, k in enumerate(l)}) *)
+Definition enum_mapping (l : list label) : mapping := l.   (* LabelMapping({k: v for v, k in enumerate(l)}), LabelMapping(dict(zip(l, range(len(l))))) *)
 Definition mapping_keys (m : mapping) : list label := m.   (* m.keys *)
 Definition mapping_N (m : mapping) : nat := length m.      (* m.N *)
 Definition mapping_item (m : mapping) (k : label) : res nat :=   (* m[k] : KeyError when absent *)
